@@ -4,6 +4,7 @@ package bigbuff
 // against the real code (go test -overlay). Values come from the JSON file named by VERIF_REPLAY.
 
 import (
+	"context"
 	"encoding/json"
 	"fmt"
 	"os"
@@ -20,6 +21,7 @@ type verifSchedEntry struct {
 	Gor   int    `json:"gor"`
 	Auto  bool   `json:"auto"`
 	Wake  bool   `json:"wake"`
+	Sel   bool   `json:"sel"`
 }
 
 // verifWakeLocker wraps the Locker of every sync.Cond created in the instrumented build: when cond.Wait
@@ -115,7 +117,7 @@ var verifCtl struct {
 
 const (
 	verifSettle  = 15 * time.Millisecond
-	verifPatience = 1500 * time.Millisecond
+	verifPatience = 3000 * time.Millisecond
 )
 
 func verifCtlAdvance() {
@@ -151,6 +153,14 @@ func verifPoint(pos string) {
 			c.remain[pos]--
 			verifCtlAdvance()
 			c.mu.Unlock()
+			if e.Sel {
+				// let pending timers / tickers become ready, so that the runtime's random choice among the
+				// ready cases can coincide with the schedule's
+				time.Sleep(3 * time.Millisecond)
+				c.mu.Lock()
+				c.arrived = time.Now()
+				c.mu.Unlock()
+			}
 			return
 		}
 		if time.Since(start) > verifPatience || time.Since(c.arrived) > verifPatience {
@@ -290,3 +300,30 @@ func verifHook(name string) {
 	}
 }
 func verifFireDeadline(id int) {}
+
+// verifDeadlineCtx: a context that ends with context.DeadlineExceeded when expire is called.
+type verifDeadlineCtxT struct {
+	context.Context
+	done chan struct{}
+	mu   sync.Mutex
+	err  error
+}
+
+func (c *verifDeadlineCtxT) Done() <-chan struct{} { return c.done }
+func (c *verifDeadlineCtxT) Err() error {
+	c.mu.Lock()
+	defer c.mu.Unlock()
+	return c.err
+}
+
+func verifDeadlineCtx(parent context.Context) (context.Context, func()) {
+	c := &verifDeadlineCtxT{Context: parent, done: make(chan struct{})}
+	return c, func() {
+		c.mu.Lock()
+		if c.err == nil {
+			c.err = context.DeadlineExceeded
+			close(c.done)
+		}
+		c.mu.Unlock()
+	}
+}
